@@ -18,7 +18,10 @@ CLASSES = ["K1", "K2", "K3", "K4", "K5", "K6", "K6", "K7", "K7", "K8", "K8", "K9
 
 
 def cases(tier, seed):
-    return D.spec_cases(tier, seed, CLASSES, 640, 3600, "c16")
+    out = D.spec_cases(tier, seed, CLASSES, 640, 3600, "c16")
+    # appended classes of vlib/gen2.py (added after the generator freeze; see DESIGN.md 2.2)
+    from vlib import gen2
+    return out + gen2.appended(tier, seed, "c16", ['A1', 'A3', 'A2', 'A3'], 120, 800)
 
 
 def run_case(case):
